@@ -25,7 +25,7 @@ PAYLOADS = {
     "digits-first": "9³x",
 }
 # valid XSD integer lexical forms that are not (all) valid Rust literals
-XSD_LEXICAL = {"plus-sign": "+7", "plus-zero-padded": "+007", "zero-padded": "007", "blank-padded": "  7\t", "minus-zero": "-0"}
+XSD_LEXICAL = {"wide-integer": "4294967296", "wide-negative-integer": "-9999999999", "plus-sign": "+7", "plus-zero-padded": "+007", "zero-padded": "007", "blank-padded": "  7\t", "minus-zero": "-0"}
 TEXT_POSITIONS = ["enumeration", "numeric-facet", "length-facet", "doc-simple", "doc-complex", "target-namespace",
                   "imported-namespace", "address", "soap-action",
                   # the same URI positions with a non-hierarchical URI (urn:...): URL normalisation percent-encodes much less there
@@ -112,7 +112,12 @@ def keyword_matrix(keywords=None, case_variants=None):
 
 
 WEIRD_NAMES = ["été", "漢字", "a.b", "a-b", "_lead", "x.1", "naïve-Name", "ΑΒΓ", "a·b", "İx", "x__y", "A1B2", "e\u0301", "ǅ", "ß",
-               "a.b.c-d_e", "ºrd", "Ünï_cödé"]
+               "a.b.c-d_e", "ºrd", "Ünï_cödé",
+               # names of the Rust prelude and of items the generated code itself relies on: a struct of that name in a module
+               # must not capture the generated code's own uses of the name
+               "Option", "Vec", "String", "Box", "Rc", "Result", "Default", "Some", "None", "Ok", "Err", "Debug", "Clone",
+               "option", "string", "date", "dateTime", "language", "int", "boolean", "Restrictions", "MultiRef", "SoapError",
+               "Header", "Body", "Envelope", "Fault"]
 
 
 def weird_name_matrix():
